@@ -214,3 +214,63 @@ class SetBenefit(Contract):
 
 
 CONTRACTS += [GetNextObject(), SetBenefit()]
+
+
+# --------------------------------------------------------------------------- coarsening-level update (spatiallyAdaptiveSingleDimension2.py)
+SD_FILE = "sparseSpACE/spatiallyAdaptiveSingleDimension2.py"
+
+
+class UpdateCoarseningValues(Contract):
+    """C06: afterwards every interval's coarsening level == lmax[d] - highest end-point level; the return value is by how much the
+    deepest level exceeds lmax[d] (0 if it does not) -- the caller raises lmax[d] by it, which makes all coarsening levels >= 0"""
+    file, qualname = SD_FILE, "SpatiallyAdaptiveSingleDimensions2.update_coarsening_values"
+    inline = ("RefinementContainer.get_objects", "get_objects")
+
+    def inputs(self, S):
+        n, dim = S.int("n"), S.int("dim")
+        S.assume(n >= 1)
+        S.assume(dim >= 1)
+        objs = ObjSeq("RefinementObjectSingleDimension", n, dict(coarsening_level=S.array("coarsening", I, I), levels=[S.array("l0", I, I), S.array("l1", I, I)]))
+        cont = Obj("RefinementContainer", dict(refinementObjects=objs))
+        return {"self": Obj("SpatiallyAdaptiveSingleDimensions2", dict(dim=dim, lmax=S.seq("lmax", dim, I))), "refinement_container_d": cont, "d": S.int("d")}
+
+    def pre(self, S, env):
+        return [("d-in-range", z3.And(env["d"] >= 0, env["d"] < env["self"].fields["dim"]))]
+
+    @staticmethod
+    def deepest(objs, j):
+        l0, l1 = objs.fields["levels"]
+        return zmax(z3.Select(l0, j), z3.Select(l1, j))
+
+    def inv(self, S, env, g):
+        o = env["refinement_container_d"].fields["refinementObjects"]
+        oo = S.ex.old["refinement_container_d"].fields["refinementObjects"]
+        lm = z3.Select(S.ex.old["self"].fields["lmax"].arr, S.ex.old["d"])
+        k, j = g["k"], z3.Int("uj")
+        u = env["update_dimension"]
+        u = V(u)
+        c = o.fields["coarsening_level"]
+        return [("done-prefix", z3.ForAll([j], z3.Implies(z3.And(j >= 0, j < k), z3.Select(c, j) == lm - self.deepest(oo, j)))),
+                ("minimum-so-far", z3.And(u <= 0, z3.ForAll([j], z3.Implies(z3.And(j >= 0, j < k), u <= z3.Select(c, j))))),
+                ("minimum-attained", z3.Or(u == 0, z3.Exists([j], z3.And(j >= 0, j < k, u == z3.Select(c, j))))),
+                ("lmax-untouched", env["self"].fields["lmax"].arr == S.ex.old["self"].fields["lmax"].arr)]
+
+    @property
+    def loops(self):
+        return {0: Loop(inv=lambda S, env, g: self.inv(S, env, g))}
+
+    def post(self, S, old, env, result):
+        o = env["refinement_container_d"].fields["refinementObjects"]
+        oo = old["refinement_container_d"].fields["refinementObjects"]
+        lm = z3.Select(old["self"].fields["lmax"].arr, old["d"])
+        n = oo.length
+        j = z3.Int("pj")
+        c = o.fields["coarsening_level"]
+        r = V(result)
+        return [Cl("coarsening-equals-lmax-minus-deepest-end-level", z3.ForAll([j], z3.Implies(z3.And(j >= 0, j < n), z3.Select(c, j) == lm - self.deepest(oo, j))), prop=True),
+                Cl("returned-raise-makes-every-coarsening-nonnegative", z3.And(r >= 0, z3.ForAll([j], z3.Implies(z3.And(j >= 0, j < n), z3.Select(c, j) + r >= 0))), prop=True),
+                Cl("returned-raise-is-minimal", z3.Or(r == 0, z3.Exists([j], z3.And(j >= 0, j < n, z3.Select(c, j) + r == 0)))),
+                Cl("lmax-untouched", env["self"].fields["lmax"].arr == old["self"].fields["lmax"].arr)]
+
+
+CONTRACTS += [UpdateCoarseningValues()]
